@@ -519,12 +519,13 @@ def write_module(root, packages, fancy=True):
             decls, srcs = "", ""
             fstyle = gen_fstyle(rng) if fancy else {}
             for p in chunk:
+                p["file"] = "%s%d.go" % (pkg, fi)      # which source file holds the program (not part of h.Prog)
                 dd, ss = render_program(p)
                 decls += dd
                 if fancy:
                     srcs += rng.choice(SURROUND).format(n=p["name"], k=rng.randint(1, 99))
                 srcs += ss + "\n"
-                q = {k: v for k, v in p.items() if k != "style"}
+                q = {k: v for k, v in p.items() if k not in ("style", "file")}
                 allprogs.append(q)
             with open(os.path.join(d, "%s%d.go" % (pkg, fi)), "w") as f:
                 f.write(header(pkg, fstyle) + respell(decls + srcs, fstyle))
@@ -538,6 +539,12 @@ def write_module(root, packages, fancy=True):
     with open(os.path.join(root, "programs.json"), "w") as f:
         json.dump(allprogs, f)
     return allprogs
+
+
+def write_registry(root, pkg, progs):
+    with open(os.path.join(root, pkg, "reg.go"), "w") as f:
+        f.write("package %s\n\nimport \"verif/harness/pkg/h\"\n\n// Registry lists the rendered functions.\n"
+                "var Registry = map[string]func(*h.X){\n%s}\n" % (pkg, "".join('\t"%s": %s,\n' % (p["name"], p["name"]) for p in progs)))
 
 
 # ------------------------------------------------------------------ seeded program generators
